@@ -89,10 +89,7 @@ fn annex_sign_session(w: &mut World) {
     w.exec(set("annex.id", b"1234567812345678"));
     w.exec(set("annex.msg", b"message digest"));
     w.exec(json!({"op":"sm2.sign","impl":"lib","d":"annex.d","id":"annex.id","msg":"annex.msg","sig":"annex.sig","rng":{"c":[k],"f":1}}));
-    let want = hex::decode("F5A03B0648D2C4630EEAC513E1BB81A15944DA3827D5B74143AC7EACEEE720B3B1B6AA29DF212FD8763182BC0D421CA1BB9038FD1F7F42D4840B69C485BBC1AA").unwrap();
-    let got = w.slots.get("annex.sig").cloned().unwrap_or_default();
-    let key = json!({"entry":"sm2.sign","class":"annex-example","outcome":"Ok"});
-    w.check("C03", "annex-example", got == want, 0xA22E, key, || format!("GM/T 0003.5 Annex A signature: got {}", hex::encode(&got)));
+    w.exec(json!({"op":"assert.eq","a":"annex.sig","hex":"f5a03b0648d2c4630eeac513e1bb81a15944da3827d5b74143ac7eaceee720b3b1b6aa29df212fd8763182bc0d421ca1bb9038fd1f7f42d4840b69c485bbc1aa","property":"C03","oracle":"annex-example","entry":"sm2.sign","class":"annex-example","what":"GM/T 0003.5 Annex A signature"}));
     w.exec(json!({"op":"sm2.verify","impl":"lib","pk":"annex.pk","id":"annex.id","msg":"annex.msg","sig":"annex.sig"}));
 }
 
